@@ -2,14 +2,23 @@ package c13
 
 import (
 	"fmt"
+	"net/url"
 	"os"
+	"reflect"
 	"strconv"
 	"strings"
+	"sync"
+	"unsafe"
 
 	"github.com/siglens/siglens/pkg/ast/pipesearch"
 	"github.com/siglens/siglens/pkg/config"
-	esreader "github.com/siglens/siglens/pkg/es/reader"
 	eswriter "github.com/siglens/siglens/pkg/es/writer"
+	otsdbwriter "github.com/siglens/siglens/pkg/integrations/otsdb/writer"
+	"github.com/siglens/siglens/pkg/integrations/prometheus/promql"
+	"github.com/siglens/siglens/pkg/segment/query"
+	sutils "github.com/siglens/siglens/pkg/segment/utils"
+	"github.com/siglens/siglens/pkg/segment/writer/metrics"
+	mmeta "github.com/siglens/siglens/pkg/segment/writer/metrics/meta"
 	"github.com/valyala/fasthttp"
 
 	"verifharness/sut"
@@ -25,7 +34,12 @@ var handlers = map[string]h2{
 	"alias.put":    eswriter.ProcessPutAliasesRequest,  // PUT|POST /{indexName}/_alias/{aliasName}
 	"alias.post":   eswriter.ProcessPostAliasesRequest, // POST /_aliases
 	"index.delete": eswriter.ProcessDeleteIndex,        // DELETE /{indexName}, POST /api/deleteIndex/{indexName}
-	"es.search":    esreader.ProcessSearchRequest,
+	// metrics (Prometheus-compatible API and the metrics explorer API)
+	"m.query_range":  promql.ProcessPromqlMetricsRangeSearchRequest, // GET /promql/api/v1/query_range
+	"m.labels":       promql.ProcessGetLabelsRequest,                // GET /promql/api/v1/labels
+	"m.label_values": promql.ProcessGetLabelValuesRequest,           // GET /promql/api/v1/label/{labelName}/values
+	"m.series":       promql.ProcessGetSeriesByLabelRequest,         // GET /promql/api/v1/series
+	"m.metric_names": promql.ProcessGetAllMetricNamesRequest,        // POST /metrics-explorer/api/v1/metric_names
 	"list.indices": pipesearch.ListIndicesHandler,      // GET /api/listIndices
 	"list.columns": pipesearch.ListColumnNamesHandler,  // POST /api/listColumnNames
 }
@@ -57,6 +71,8 @@ func init() {
 		return nil
 	})
 	sut.RegisterOp("c13.http", opHTTP)
+	sut.RegisterOp("c13.mput", opMPut)
+	sut.RegisterOp("c13.mrotate", opMRotate)
 }
 
 func opHTTP(r *sut.Req) (interface{}, error) {
@@ -70,11 +86,85 @@ func opHTTP(r *sut.Req) (interface{}, error) {
 		ctx.Request.Header.SetContentType("application/json")
 		ctx.Request.SetBody(r.Body)
 	}
+	qa := url.Values{}
 	for k, v := range r.Args {
-		if strings.HasPrefix(k, "uv.") {
+		switch {
+		case strings.HasPrefix(k, "uv."):
 			ctx.SetUserValue(k[3:], v)
+		case strings.HasPrefix(k, "q."):
+			qa.Set(k[2:], v)
 		}
+	}
+	if len(qa) > 0 {
+		ctx.Request.Header.SetMethod("GET")
+		ctx.Request.SetRequestURI("/x?" + qa.Encode())
 	}
 	h(ctx, r.Org)
 	return &sut.HTTPResult{Status: ctx.Response.StatusCode(), Body: append([]byte(nil), ctx.Response.Body()...)}, nil
+}
+
+// ---- metrics ---------------------------------------------------------------------------------------
+
+type putResult struct {
+	Success uint64 `json:"success"`
+	Failed  uint64 `json:"failed"`
+	Err     string `json:"err,omitempty"`
+}
+
+func opMPut(req *sut.Req) (interface{}, error) {
+	ok, failed, err := otsdbwriter.HandlePutMetrics(req.Body, req.Org)
+	r := &putResult{Success: ok, Failed: failed}
+	if err != nil {
+		r.Err = err.Error()
+	}
+	return r, nil
+}
+
+// segLock returns the lock every production caller of CheckAndRotate holds (unexported field).
+func segLock(ms *metrics.MetricsSegment) (*sync.RWMutex, error) {
+	f := reflect.ValueOf(ms).Elem().FieldByName("rwLock")
+	if !f.IsValid() || f.Kind() != reflect.Ptr {
+		return nil, fmt.Errorf("MetricsSegment.rwLock not found")
+	}
+	p := *(**sync.RWMutex)(unsafe.Pointer(f.UnsafeAddr()))
+	if p == nil {
+		return nil, fmt.Errorf("MetricsSegment.rwLock is nil")
+	}
+	return p, nil
+}
+
+// opMRotate drives the size-triggered rotation path (timeBasedRotate -> CheckAndRotate(false)) of every
+// tenant's metrics segments at a chosen moment by lowering the exported thresholds for the duration of the
+// call (same device as the C09 check): Name = block | segment.
+func opMRotate(req *sut.Req) (interface{}, error) {
+	if req.Name != "block" && req.Name != "segment" {
+		return nil, fmt.Errorf("unknown rotation %q", req.Name)
+	}
+	oldB, oldS := sutils.MAX_BYTES_METRICS_BLOCK, sutils.MAX_BYTES_METRICS_SEGMENT
+	sutils.MAX_BYTES_METRICS_BLOCK = 0
+	if req.Name == "segment" {
+		sutils.MAX_BYTES_METRICS_SEGMENT = 0
+	}
+	defer func() { sutils.MAX_BYTES_METRICS_BLOCK, sutils.MAX_BYTES_METRICS_SEGMENT = oldB, oldS }()
+	n := 0
+	for _, ms := range metrics.GetAllMetricsSegments() {
+		l, err := segLock(ms)
+		if err != nil {
+			return nil, err
+		}
+		l.Lock()
+		err = ms.CheckAndRotate(false)
+		l.Unlock()
+		if err != nil {
+			return nil, fmt.Errorf("CheckAndRotate: %v", err)
+		}
+		n++
+	}
+	if req.Name == "segment" {
+		// the query side re-reads metricmeta.json every 5 s; forced here so that no verdict depends on the clock
+		if err := query.PopulateMetricsMetadataForTheFile_TestOnly(mmeta.GetLocalMetricsMetaFName()); err != nil {
+			return nil, fmt.Errorf("metrics meta refresh: %v", err)
+		}
+	}
+	return n, nil
 }
